@@ -499,32 +499,67 @@ def check_identifier_paths(ctx):
                file=IDENT, line=fn.lineno)
 
 
+def identifier_printer(ctx):
+    """Identifier.parts_to_str interpreted (fail-closed AST interpreter): callable(list of parts) -> printed text.  The reserved words are whatever
+    get_reserved_words computes from the statically extracted token sets of the lexer classes it names."""
+    from ..interp import Interp, Obj, Raised, Env
+    from ..grammar import _SetEval, _module_of
+    tree = ctx.src.tree(IDENT)
+    cls = next((n for n in tree.body if isinstance(n, ast.ClassDef) and n.name == 'Identifier'), None)
+    ctx.need(cls is not None, 'identifier.py: class Identifier not found')
+    fn = next((m for m in cls.body if isinstance(m, ast.FunctionDef) and m.name == 'parts_to_str'), None)
+    ctx.need(fn is not None, 'Identifier.parts_to_str not found')
+    se = _SetEval(ctx.src)
+    stubs = {}
+    for n in ast.walk(tree):
+        if isinstance(n, ast.ImportFrom) and n.module and 'lexer' in n.module:
+            for a in n.names:
+                try:
+                    stubs[f'{a.asname or a.name}.tokens'] = set(se.lexer_tokens(_module_of(ctx.src, n.module), a.name))
+                except Exception:
+                    pass
+    methods = {'Identifier': {m.name: m for m in cls.body if isinstance(m, ast.FunctionDef)}}
+
+    def enc(parts):
+        it = Interp({'Star': set()}, stubs, methods=methods)
+        it.module = tree
+        try:
+            out = it.call_function(fn, [Obj('Identifier', parts=list(parts), alias=None, parentheses=False)], {}, Env())
+        except Raised as r:
+            raise AnalysisError(f'Identifier.parts_to_str raises {r.exc_name} for parts {parts!r}')
+        if not isinstance(out, str):
+            raise AnalysisError(f'Identifier.parts_to_str does not return text for parts {parts!r}')
+        return out
+    return enc, fn
+
+
 def check_identifier_encoder(ctx):
     """Identifier.parts_to_str must quote every part the ID pattern cannot read back bare; evaluated on probe parts with the
     regex read from the source and the mindsdb lexer."""
     from ..lexmodel import master_for, master_for
     g = load_dialect(ctx.src, 'mindsdb')
     master = master_for(g.lexer)
-    tree = ctx.src.tree(IDENT)
-    nw = None
-    for n in tree.body:
-        if isinstance(n, ast.Assign) and norm(n.targets[0]) == 'no_wrap_identifier_regex' and isinstance(n.value, ast.Call):
-            nw = const_str(n.value.args[0])
-    ctx.need(nw is not None, 'identifier.py: no_wrap_identifier_regex not found')
-    probes = ['a', 'A1', '_x', 'x y', 'a.b', '1a', 'a-b', 'a$b', '$a', 'not$a', 'in$x', 'é', '', 'a"b', "a'b", 'select', 'b`t']
+    enc, encfn = identifier_printer(ctx)
+    probes = ['a', 'A1', '_x', 'x y', 'a.b', '1a', 'a-b', 'a$b', '$a', 'not$a', 'in$x', 'é', 'café', 'цена', '名前', 'a b', "a'b", 'a"b', 'select', 'Select', 'from',
+              'x1', 'a_1', 'ab$', '9', 'a;b', 'a--b', 'a/*b', 'true', 'null']
     bad = []
     for part in probes:
-        bare = re.fullmatch(nw, part) is not None
-        text = part if bare else f'`{part}`'
+        text = enc([part])
         toks = master.types(text)
-        if bare and toks != ['ID'] and part.upper() not in ('SELECT',):
-            bad.append((part, text, toks))
-        if not bare and part and '`' not in part and toks != ['ID']:
+        quoted = text.startswith('`') and text.endswith('`') and len(text) >= 2
+        decoded = text[1:-1] if quoted else text
+        if toks != ['ID'] or decoded != part:
             bad.append((part, text, toks))
         ctx.count('identifier_encoder_probes')
-    ctx.ob('C04.identifier-encoder', 'no_wrap_identifier_regex', not bad,
-           f'an identifier part {bad[0][0]!r} is printed as `{bad[0][1]}` (the no-wrap pattern {nw!r} lets it go unquoted), but that text '
-           f'lexes to {bad[0][2]} rather than one ID token' if bad else '', file=IDENT,
+    # two-part names: the separator is a dot outside the quotes
+    for parts in (['a', 'b'], ['x y', 'c'], ['select', 'from']):
+        text = enc(parts)
+        toks = master.types(text)
+        if toks != ['ID', 'DOT', 'ID']:
+            bad.append(('.'.join(parts), text, toks))
+    ctx.ob('C04.identifier-encoder', 'Identifier.parts_to_str', not bad,
+           f'an identifier part {bad[0][0]!r} is printed as `{bad[0][1]}`, but that text lexes to {bad[0][2]} rather than one ID token holding the part: the printed '
+           f'statement does not read back (further: {[b[0] for b in bad[1:6]]})' if bad else '', file=IDENT, line=encfn.lineno,
            witness=f'select `{bad[0][0]}` from t' if bad else None)
     ctx.note('an identifier part that contains a back-quote cannot be written in any form the ID pattern reads back (limitation of the '
              'token grammar: the pattern has no escape for `) - listed, not a violation of an encoder/decoder disagreement')
